@@ -21,7 +21,8 @@ TRUSTED = ["CPython ast parser", "re._parser", "str.partition / list semantics",
 
 def _tables(ctx):
     am = ctx.repo.mod("ansi")
-    sgr = literal(am.global_assign("SGR_STYLE_MAP"))
+    from .common import table_value
+    sgr = table_value(am, "SGR_STYLE_MAP")
     st = ctx.repo.cls("style:Style")
     smap = literal(st.class_assign("_style_map"))
     bits: Dict[int, str] = {}
